@@ -160,4 +160,628 @@ theorem boydKids_toks : (ks : List Tree) → (ks' : List Tree) → boydKids ks =
         simpa [toksL] using h1.append h2
 end
 
+/-! ### blocks, gaps and runs of numbers -/
+
+theorem blocksOf_cons_cons {a b : Nat} {rest : List Nat} {blk : List Nat} {blks : List (List Nat)}
+    (h : blocksOf (b :: rest) = blk :: blks) :
+    blocksOf (a :: b :: rest) = if a + 1 < b then [a] :: blk :: blks else (a :: blk) :: blks := by
+  simp only [blocksOf, h]
+
+theorem blocksOf_cons : ∀ (m : List Nat) (c : Nat), ∃ blk blks, blocksOf (c :: m) = (c :: blk) :: blks
+  | [], c => ⟨[], [], rfl⟩
+  | d :: m, c => by
+    obtain ⟨blk, blks, h⟩ := blocksOf_cons m d
+    rw [blocksOf_cons_cons h]
+    by_cases hc : c + 1 < d
+    · rw [if_pos hc]; exact ⟨[], _, rfl⟩
+    · rw [if_neg hc]; exact ⟨_, _, rfl⟩
+
+theorem gapCount_eq_blocks : ∀ l : List Nat, gapCount l = (blocksOf l).length - 1
+  | [] => rfl
+  | [_] => rfl
+  | a :: b :: rest => by
+    obtain ⟨blk, blks, h⟩ := blocksOf_cons rest b
+    have ih := gapCount_eq_blocks (b :: rest)
+    rw [blocksOf_cons_cons h]
+    simp only [gapCount, ih, h]
+    split <;> simp <;> omega
+
+theorem gapCount_of_mem_blocksOf : ∀ l : List Nat, ∀ x ∈ blocksOf l, gapCount x = 0
+  | [], x, hx => by simp [blocksOf] at hx
+  | [a], x, hx => by
+    simp only [blocksOf, List.mem_singleton] at hx
+    subst hx; rfl
+  | a :: b :: rest, x, hx => by
+    obtain ⟨blk, blks, h⟩ := blocksOf_cons rest b
+    have ih := gapCount_of_mem_blocksOf (b :: rest)
+    rw [h] at ih
+    rw [blocksOf_cons_cons h] at hx
+    split at hx
+    · rcases List.mem_cons.1 hx with rfl | hx
+      · rfl
+      · exact ih x hx
+    · rename_i hc
+      rcases List.mem_cons.1 hx with rfl | hx
+      · have := ih (b :: blk) List.mem_cons_self
+        simp only [gapCount, this, hc, if_false]
+      · exact ih x (List.mem_cons_of_mem _ hx)
+
+theorem range'_of_gapCount : ∀ (l : List Nat) (a : Nat), gapCount (a :: l) = 0 →
+    (a :: l).Pairwise (· < ·) → a :: l = List.range' a (l.length + 1)
+  | [], a, _, _ => rfl
+  | b :: l, a, hg, hp => by
+    simp only [gapCount] at hg
+    have hab : a < b := (List.pairwise_cons.1 hp).1 b List.mem_cons_self
+    have hb : b = a + 1 := by
+      by_cases h : a + 1 < b
+      · simp [h] at hg
+      · omega
+    have hg' : gapCount (b :: l) = 0 := by omega
+    have ih := range'_of_gapCount l b hg' (List.pairwise_cons.1 hp).2
+    show a :: b :: l = List.range' a (l.length + 1 + 1)
+    rw [List.range'_succ, ← hb, ← ih]
+
+theorem blocksOf_range' : ∀ (n a : Nat), blocksOf (List.range' a (n + 1)) = [List.range' a (n + 1)]
+  | 0, a => rfl
+  | n + 1, a => by
+    have ih := blocksOf_range' n (a + 1)
+    rw [List.range'_succ] at ih
+    rw [List.range'_succ, List.range'_succ, blocksOf_cons_cons ih]
+    simp
+
+theorem blocksOf_range'_append {c : Nat} {m blk : List Nat} {blks : List (List Nat)}
+    (h : blocksOf (c :: m) = blk :: blks) : ∀ (n a : Nat),
+    blocksOf (List.range' a (n + 1) ++ c :: m) =
+      if a + (n + 1) < c then List.range' a (n + 1) :: blk :: blks
+      else (List.range' a (n + 1) ++ blk) :: blks
+  | 0, a => by
+    simp only [List.range'_succ, List.range'_zero, List.cons_append, List.nil_append]
+    exact blocksOf_cons_cons h
+  | n + 1, a => by
+    have ih := blocksOf_range'_append h n (a + 1)
+    rw [List.range'_succ, List.cons_append]
+    rw [List.range'_succ, List.cons_append] at ih
+    by_cases hc : a + 1 + (n + 1) < c
+    · rw [if_pos hc] at ih
+      rw [List.range'_succ, List.cons_append, blocksOf_cons_cons ih, if_neg (Nat.lt_irrefl _),
+        if_pos (by omega)]
+    · rw [if_neg hc] at ih
+      rw [List.range'_succ, List.cons_append, blocksOf_cons_cons ih, if_neg (Nat.lt_irrefl _),
+        if_neg (by omega)]
+      rfl
+
+/-! ### yields -/
+
+theorem yield_perm (t : Tree) : (yield t).Perm t.leafNums := (sortBy_perm num t.leaves).map num
+
+theorem yield_sorted (t : Tree) : (yield t).Pairwise (· ≤ ·) :=
+  List.pairwise_map.2 (sortBy_sorted num t.leaves)
+
+theorem mem_yield (t : Tree) (n : Nat) : n ∈ yield t ↔ n ∈ t.leafNums := (yield_perm t).mem_iff
+
+theorem yield_node (f : Fields) (ks : List Tree) :
+    yield (node f ks) = sortBy id (ks.flatMap leafNums) := by
+  rw [yield_eq, leafNums_node]
+
+theorem yield_leaf (n : Nat) (f : Fields) : yield (leaf n f) = [n] := by
+  simp [yield, terminals, leaves, sortBy, insertBy, num]
+
+theorem sortBy_id_eq {l l' : List Nat} (hp : l.Perm l') (hs : l'.Pairwise (· ≤ ·)) :
+    sortBy id l = l' := by
+  refine List.Perm.eq_of_pairwise (le := fun a b => a ≤ b) ?_ (sortBy_sorted id l) hs
+    ((sortBy_perm id l).trans hp)
+  intro a b _ _ h1 h2
+  exact Nat.le_antisymm h1 h2
+
+theorem sortBy_id_congr {l l' : List Nat} (hp : l.Perm l') : sortBy id l = sortBy id l' :=
+  sortBy_id_eq (hp.trans (sortBy_perm id l').symm) (sortBy_sorted id l')
+
+theorem strict_of_sorted_nodup {l : List Nat} (hs : l.Pairwise (· ≤ ·)) (hn : l.Nodup) :
+    l.Pairwise (· < ·) := by
+  rw [List.Nodup] at hn
+  exact (hs.and hn).imp (fun ⟨h1, h2⟩ => Nat.lt_of_le_of_ne h1 h2)
+
+theorem le_of_strict {l : List Nat} (hs : l.Pairwise (· < ·)) : l.Pairwise (· ≤ ·) :=
+  hs.imp Nat.le_of_lt
+
+/-- the yield is a non-empty interval -/
+def Ival (x : Tree) : Prop := ∃ a n, yield x = List.range' a (n + 1)
+
+theorem leftmost_of_ival {x : Tree} {a n : Nat} (h : yield x = List.range' a (n + 1)) :
+    leftmost x = a := by
+  simp [leftmost, h, List.head?_range']
+
+theorem rightmost_of_ival {x : Tree} {a n : Nat} (h : yield x = List.range' a (n + 1)) :
+    rightmost x = a + n := by
+  simp [rightmost, h, List.getLast?_range']
+
+theorem ival_of (x : Tree) (hg : gapDegreeNode x = 0) (hne : x.leafNums ≠ [])
+    (hn : x.leafNums.Nodup) : Ival x := by
+  cases x with
+  | leaf n f => exact ⟨n, 0, yield_leaf n f⟩
+  | node f ks =>
+    simp only [gapDegreeNode] at hg
+    have hs := strict_of_sorted_nodup (yield_sorted (node f ks)) ((yield_perm _).symm.nodup hn)
+    cases hy : yield (node f ks) with
+    | nil =>
+      have := (yield_perm (node f ks)).symm
+      rw [hy] at this
+      exact absurd (List.perm_nil.1 this) hne
+    | cons a l =>
+      rw [hy] at hg hs
+      exact ⟨a, l.length, hy.trans (range'_of_gapCount l a hg hs)⟩
+
+/-! ### groupAdjacent -/
+
+theorem groupAdjacent_cons_cons {a b : Tree} {rest blk : List Tree} {blks : List (List Tree)}
+    (h : groupAdjacent (b :: rest) = blk :: blks) :
+    groupAdjacent (a :: b :: rest) =
+      if leftmost b > rightmost a + 1 then [a] :: blk :: blks else (a :: blk) :: blks := by
+  simp only [groupAdjacent, h]
+
+theorem groupAdjacent_cons : ∀ (m : List Tree) (c : Tree),
+    ∃ blk blks, groupAdjacent (c :: m) = (c :: blk) :: blks
+  | [], c => ⟨[], [], rfl⟩
+  | d :: m, c => by
+    obtain ⟨blk, blks, h⟩ := groupAdjacent_cons m d
+    rw [groupAdjacent_cons_cons h]
+    by_cases hc : leftmost d > rightmost c + 1
+    · rw [if_pos hc]; exact ⟨[], _, rfl⟩
+    · rw [if_neg hc]; exact ⟨_, _, rfl⟩
+
+theorem groupAdjacent_ne_nil : ∀ (l : List Tree), ∀ g ∈ groupAdjacent l, g ≠ []
+  | [], g, hg => by simp [groupAdjacent] at hg
+  | [a], g, hg => by
+    simp only [groupAdjacent, List.mem_singleton] at hg
+    subst hg; simp
+  | a :: b :: rest, g, hg => by
+    obtain ⟨blk, blks, h⟩ := groupAdjacent_cons rest b
+    have ih := groupAdjacent_ne_nil (b :: rest)
+    rw [h] at ih
+    rw [groupAdjacent_cons_cons h] at hg
+    split at hg
+    · rcases List.mem_cons.1 hg with rfl | hg
+      · simp
+      · exact ih g hg
+    · rcases List.mem_cons.1 hg with rfl | hg
+      · simp
+      · exact ih g (List.mem_cons_of_mem _ hg)
+
+/-- grouping adjacent interval-children computes the blocks of the concatenated yields -/
+theorem groupAdjacent_yields : ∀ (l : List Tree), (∀ x ∈ l, Ival x) →
+    (groupAdjacent l).map (·.flatMap yield) = blocksOf (l.flatMap yield)
+  | [], _ => rfl
+  | [a], hI => by
+    obtain ⟨aa, na, ha⟩ := hI a List.mem_cons_self
+    simp [groupAdjacent, ha, blocksOf_range']
+  | a :: b :: rest, hI => by
+    obtain ⟨blk, blks, hg⟩ := groupAdjacent_cons rest b
+    have ih := groupAdjacent_yields (b :: rest) (fun x hx => hI x (List.mem_cons_of_mem _ hx))
+    obtain ⟨aa, na, ha⟩ := hI a List.mem_cons_self
+    obtain ⟨ab, nb, hb⟩ := hI b (List.mem_cons_of_mem _ List.mem_cons_self)
+    have hbm : (b :: rest).flatMap yield = ab :: (List.range' (ab + 1) nb ++ rest.flatMap yield) := by
+      simp [hb, List.range'_succ]
+    rw [hg, hbm, List.map_cons] at ih
+    rw [groupAdjacent_cons_cons hg, List.flatMap_cons, hbm, ha,
+      blocksOf_range'_append ih.symm na aa, leftmost_of_ival hb, rightmost_of_ival ha]
+    by_cases hc : ab > aa + na + 1
+    · rw [if_pos hc, if_pos (by omega)]
+      simp [ha]
+    · rw [if_neg hc, if_neg (by omega)]
+      simp [ha]
+
+/-- siblings sorted by leftmost token, each an interval, with disjoint tokens: the concatenated
+    yields are strictly increasing -/
+theorem sorted_flatMap_yield (l : List Tree) (hI : ∀ x ∈ l, Ival x)
+    (hs : l.Pairwise (fun a b => leftmost a ≤ leftmost b)) (hn : (l.flatMap leafNums).Nodup) :
+    (l.flatMap yield).Pairwise (· < ·) := by
+  rw [List.pairwise_flatMap]
+  constructor
+  · intro a ha
+    obtain ⟨aa, na, h⟩ := hI a ha
+    rw [h]; exact List.pairwise_lt_range'
+  · rw [List.Nodup, List.pairwise_flatMap] at hn
+    refine (hs.and hn.2).imp_of_mem ?_
+    intro a b ha hb ⟨hab, hd⟩ x hx y hy
+    obtain ⟨aa, na, ha'⟩ := hI a ha
+    obtain ⟨ab, nb, hb'⟩ := hI b hb
+    rw [leftmost_of_ival ha', leftmost_of_ival hb'] at hab
+    have hx' := hx; have hy' := hy
+    rw [ha', List.mem_range'_1] at hx'
+    rw [hb', List.mem_range'_1] at hy'
+    by_cases hlt : x < y
+    · exact hlt
+    · exfalso
+      have h1 : ab ∈ yield a := by rw [ha', List.mem_range'_1]; omega
+      have h2 : ab ∈ yield b := by rw [hb', List.mem_range'_1]; omega
+      exact hd ab ((mem_yield a ab).1 h1) ab ((mem_yield b ab).1 h2) rfl
+
+theorem flatMap_yield_perm (g : List Tree) : (g.flatMap leafNums).Perm (g.flatMap yield) :=
+  perm_flatMap_of_forall _ _ g (fun a _ => (yield_perm a).symm)
+
+/-- what the node-level step of `boyd_split` sees -/
+structure NodeStep (ks : List Tree) : Prop where
+  sorted : ((sortBy leftmost ks).flatMap yield).Pairwise (· < ·)
+  yieldEq : sortBy id (ks.flatMap leafNums) = (sortBy leftmost ks).flatMap yield
+  groups : (groupAdjacent (sortBy leftmost ks)).map (·.flatMap yield) =
+    blocksOf (sortBy id (ks.flatMap leafNums))
+  groupYield : ∀ g ∈ groupAdjacent (sortBy leftmost ks), sortBy id (g.flatMap leafNums) = g.flatMap yield
+
+theorem nodeStep (ks : List Tree) (hI : ∀ x ∈ ks, Ival x) (hn : (ks.flatMap leafNums).Nodup) :
+    NodeStep ks := by
+  have hI' : ∀ x ∈ sortBy leftmost ks, Ival x := fun x hx => hI x ((mem_sortBy _ _ _).1 hx)
+  have hp : ((sortBy leftmost ks).flatMap leafNums).Perm (ks.flatMap leafNums) :=
+    (sortBy_perm leftmost ks).flatMap_right leafNums
+  have hsorted := sorted_flatMap_yield (sortBy leftmost ks) hI' (sortBy_sorted leftmost ks)
+    (hp.symm.nodup hn)
+  have hy : sortBy id (ks.flatMap leafNums) = (sortBy leftmost ks).flatMap yield :=
+    sortBy_id_eq (hp.symm.trans (flatMap_yield_perm _)) (le_of_strict hsorted)
+  refine ⟨hsorted, hy, ?_, ?_⟩
+  · rw [hy]; exact groupAdjacent_yields _ hI'
+  · intro g hg
+    have hsub : g.Sublist (sortBy leftmost ks) := by
+      have := List.sublist_flatten_of_mem hg
+      rwa [groupAdjacent_flatten] at this
+    refine sortBy_id_eq (flatMap_yield_perm g) (le_of_strict ?_)
+    rw [List.pairwise_flatMap] at hsorted ⊢
+    exact ⟨fun a ha => hsorted.1 a (hsub.subset ha), hsorted.2.sublist hsub⟩
+
+/-! ### noEmpty / continuous -/
+
+theorem noEmptyL_iff : ∀ ks : List Tree, noEmptyL ks = true ↔ ∀ k ∈ ks, noEmpty k = true
+  | [] => by simp [noEmptyL]
+  | t :: ts => by simp [noEmptyL, noEmptyL_iff ts]
+
+mutual
+theorem leaves_ne_nil : (t : Tree) → noEmpty t = true → t.leaves ≠ []
+  | .leaf n f, _ => by simp [leaves]
+  | .node f ks, h => by
+    simp only [noEmpty, Bool.and_eq_true, Bool.not_eq_true', List.isEmpty_eq_false_iff] at h
+    simp only [leaves]
+    exact leavesL_ne_nil ks h.2 h.1
+theorem leavesL_ne_nil : (ks : List Tree) → noEmptyL ks = true → ks ≠ [] → leavesL ks ≠ []
+  | [], _, h => absurd rfl h
+  | t :: ts, h, _ => by
+    simp only [noEmptyL, Bool.and_eq_true] at h
+    simp only [leavesL]
+    have := leaves_ne_nil t h.1
+    simp [this]
+end
+
+theorem leafNums_ne_nil (t : Tree) (h : noEmpty t = true) : t.leafNums ≠ [] := by
+  simp only [leafNums, ne_eq, List.map_eq_nil_iff]
+  exact leaves_ne_nil t h
+
+theorem flatMap_leafNums_ne_nil (ks : List Tree) (h : noEmptyL ks = true) (hne : ks ≠ []) :
+    ks.flatMap leafNums ≠ [] := by
+  have := leavesL_ne_nil ks h hne
+  rw [leavesL_eq] at this
+  intro h0
+  apply this
+  have h1 : (ks.flatMap leaves).map num = [] := by rw [List.map_flatMap]; exact h0
+  exact List.map_eq_nil_iff.1 h1
+
+theorem noEmpty_node (f : Fields) (ks : List Tree) :
+    noEmpty (node f ks) = true ↔ ks ≠ [] ∧ ∀ k ∈ ks, noEmpty k = true := by
+  simp [noEmpty, noEmptyL_iff]
+
+theorem continuous_node (f : Fields) (ks : List Tree) :
+    continuous (node f ks) = true ↔
+      gapCount (yield (node f ks)) = 0 ∧ ∀ k ∈ ks, continuous k = true := by
+  simp only [continuous, subtrees, subtreesL_eq, List.all_cons, List.all_flatMap, gapDegreeNode,
+    Bool.and_eq_true, beq_iff_eq, List.all_eq_true]
+
+theorem continuous_leaf (n : Nat) (f : Fields) : continuous (leaf n f) = true := by
+  simp [continuous, subtrees, gapDegreeNode]
+
+theorem continuous_root (x : Tree) (h : continuous x = true) : gapDegreeNode x = 0 := by
+  cases x with
+  | leaf n f => rfl
+  | node f ks => simp only [gapDegreeNode]; exact ((continuous_node f ks).1 h).1
+
+theorem nodup_of_mem_flatMap {ks : List Tree} (hn : (ks.flatMap leafNums).Nodup) {x : Tree}
+    (hx : x ∈ ks) : x.leafNums.Nodup := by
+  rw [List.Nodup, List.pairwise_flatMap] at hn
+  exact hn.1 x hx
+
+/-! ### the node-level step of boyd_split -/
+
+def boydStep (f : Fields) (ks' : List Tree) : Except Err (List Tree) :=
+  if (groupAdjacent (sortBy leftmost ks')).length ≤ 1 then
+    .ok [node { f with split := some false, headBlock := some true } ks']
+  else if f.head.isNone then .error .valueError
+  else .ok (numberBlocks f 0 (groupAdjacent (sortBy leftmost ks')))
+
+theorem boydNode_node (f : Fields) (ks : List Tree) :
+    boydNode (node f ks) = match boydKids ks with
+      | .error e => .error e
+      | .ok ks' => boydStep f ks' := by
+  simp only [boydNode, boydStep]
+  cases boydKids ks <;> rfl
+
+theorem mem_numberBlocks (f : Fields) : ∀ (i : Nat) (G : List (List Tree)) (x : Tree),
+    x ∈ numberBlocks f i G → ∃ g ∈ G, ∃ f' : Fields, x = node f' g ∧ f'.label = f.label ∧
+      f'.split = some true
+  | _, [], x, h => by simp [numberBlocks] at h
+  | i, g :: G, x, h => by
+    simp only [numberBlocks, List.mem_cons] at h
+    rcases h with rfl | h
+    · exact ⟨g, List.mem_cons_self, _, rfl, rfl, rfl⟩
+    · obtain ⟨g', hg', f', hx, hl⟩ := mem_numberBlocks f (i + 1) G x h
+      exact ⟨g', List.mem_cons_of_mem _ hg', f', hx, hl⟩
+
+theorem numberBlocks_map_yield (f : Fields) : ∀ (i : Nat) (G : List (List Tree)),
+    (numberBlocks f i G).map yield = G.map (fun g => sortBy id (g.flatMap leafNums))
+  | _, [] => by simp [numberBlocks]
+  | i, g :: G => by simp [numberBlocks, yield_node, numberBlocks_map_yield f (i + 1) G]
+
+theorem boydStep_spec (f : Fields) (ks' r : List Tree) (h : boydStep f ks' = .ok r)
+    (hgood : ∀ x ∈ ks', continuous x = true ∧ noEmpty x = true)
+    (hn : (ks'.flatMap leafNums).Nodup) (hne : ks' ≠ []) :
+    (∀ x ∈ r, continuous x = true ∧ noEmpty x = true) ∧
+    r.map yield = blocksOf (sortBy id (ks'.flatMap leafNums)) ∧
+    ∀ x ∈ r, x.fields.label = f.label := by
+  have hI : ∀ x ∈ ks', Ival x := fun x hx =>
+    ival_of x (continuous_root x (hgood x hx).1) (leafNums_ne_nil x (hgood x hx).2)
+      (nodup_of_mem_flatMap hn hx)
+  have ns := nodeStep ks' hI hn
+  have hflat := groupAdjacent_flatten (sortBy leftmost ks')
+  unfold boydStep at h
+  split at h
+  · rename_i hlen
+    simp only [Except.ok.injEq] at h
+    subst h
+    have hgc : gapCount (sortBy id (ks'.flatMap leafNums)) = 0 := by
+      rw [gapCount_eq_blocks, ← ns.groups, List.length_map]; omega
+    refine ⟨?_, ?_, ?_⟩
+    · intro x hx
+      rw [List.mem_singleton] at hx
+      subst hx
+      refine ⟨(continuous_node _ _).2 ⟨?_, fun k hk => (hgood k hk).1⟩,
+        (noEmpty_node _ _).2 ⟨hne, fun k hk => (hgood k hk).2⟩⟩
+      rw [yield_node]; exact hgc
+    · rw [← ns.groups]
+      have hl : sortBy leftmost ks' ≠ [] := by
+        intro h0
+        have := sortBy_length leftmost ks'
+        rw [h0] at this
+        exact hne (List.length_eq_zero_iff.1 this.symm)
+      cases hG : groupAdjacent (sortBy leftmost ks') with
+      | nil => rw [hG] at hflat; exact absurd hflat.symm hl
+      | cons g G =>
+        cases G with
+        | nil =>
+          rw [hG] at hflat
+          simp only [List.flatten_cons, List.flatten_nil, List.append_nil] at hflat
+          simp [yield_node, ns.yieldEq, hflat]
+        | cons g' G' => rw [hG] at hlen; simp at hlen
+    · simp [fields]
+  · split at h
+    · simp at h
+    · simp only [Except.ok.injEq] at h
+      subst h
+      refine ⟨?_, ?_, ?_⟩
+      · intro x hx
+        obtain ⟨g, hg, f', rfl, _⟩ := mem_numberBlocks f 0 _ x hx
+        have hsub : ∀ k ∈ g, k ∈ ks' := fun k hk =>
+          (mem_sortBy leftmost ks' k).1 (hflat ▸ List.mem_flatten.2 ⟨g, hg, hk⟩)
+        refine ⟨(continuous_node _ _).2 ⟨?_, fun k hk => (hgood k (hsub k hk)).1⟩,
+          (noEmpty_node _ _).2 ⟨groupAdjacent_ne_nil _ g hg, fun k hk => (hgood k (hsub k hk)).2⟩⟩
+        rw [yield_node, ns.groupYield g hg]
+        apply gapCount_of_mem_blocksOf (sortBy id (ks'.flatMap leafNums))
+        rw [← ns.groups]
+        exact List.mem_map.2 ⟨g, hg, rfl⟩
+      · rw [numberBlocks_map_yield, ← ns.groups]
+        exact List.map_congr_left (fun g hg => ns.groupYield g hg)
+      · intro x hx
+        obtain ⟨g, _, f', rfl, hl, _⟩ := mem_numberBlocks f 0 _ x hx
+        exact hl
+
+theorem toksL_map_fst (l : List Tree) : (toksL l).map (·.1) = l.flatMap leafNums := by
+  simp only [toksL, List.map_map, List.map_flatMap]
+  rfl
+
+theorem boydKids_leafNums (ks ks' : List Tree) (h : boydKids ks = .ok ks') :
+    (ks'.flatMap leafNums).Perm (ks.flatMap leafNums) := by
+  have := (boydKids_toks ks ks' h).map (·.1)
+  rwa [toksL_map_fst, toksL_map_fst] at this
+
+theorem boydNode_leafNums (t : Tree) (r : List Tree) (h : boydNode t = .ok r) :
+    (r.flatMap leafNums).Perm t.leafNums := by
+  have := (boydNode_toks t r h).map (·.1)
+  rw [toksL_map_fst] at this
+  simpa [leafNums, tok, Function.comp_def] using this
+
+/-- everything needed one level up, about the processed children of a node -/
+theorem kids_ready (ks ks' : List Tree) (h : boydKids ks = .ok ks')
+    (hne : noEmptyL ks = true) (hks : ks ≠ []) (hn : (ks.flatMap leafNums).Nodup) :
+    (ks'.flatMap leafNums).Nodup ∧ ks' ≠ [] := by
+  have hp := boydKids_leafNums ks ks' h
+  refine ⟨hp.symm.nodup hn, ?_⟩
+  rintro rfl
+  exact flatMap_leafNums_ne_nil ks hne hks (List.perm_nil.1 hp.symm)
+
+mutual
+theorem boydNode_good : (t : Tree) → (r : List Tree) → boydNode t = .ok r →
+    noEmpty t = true → t.leafNums.Nodup → ∀ x ∈ r, continuous x = true ∧ noEmpty x = true
+  | .leaf n f, r, h, _, _ => by
+    simp only [boydNode, Except.ok.injEq] at h
+    subst h
+    intro x hx
+    rw [List.mem_singleton] at hx
+    subst hx
+    exact ⟨continuous_leaf _ _, by simp [noEmpty]⟩
+  | .node f ks, r, h, hne, hn => by
+    rw [boydNode_node] at h
+    cases hk : boydKids ks with
+    | error e => simp [hk] at h
+    | ok ks' =>
+      simp only [hk] at h
+      simp only [noEmpty, Bool.and_eq_true, Bool.not_eq_true', List.isEmpty_eq_false_iff] at hne
+      rw [leafNums_node] at hn
+      have ih := boydKids_good ks ks' hk hne.2 hn
+      obtain ⟨hn', hne'⟩ := kids_ready ks ks' hk hne.2 hne.1 hn
+      exact (boydStep_spec f ks' r h ih hn' hne').1
+theorem boydKids_good : (ks : List Tree) → (ks' : List Tree) → boydKids ks = .ok ks' →
+    noEmptyL ks = true → (ks.flatMap leafNums).Nodup →
+    ∀ x ∈ ks', continuous x = true ∧ noEmpty x = true
+  | [], ks', h, _, _ => by
+    simp only [boydKids, Except.ok.injEq] at h
+    subst h
+    simp
+  | t :: ts, ks', h, hne, hn => by
+    simp only [boydKids] at h
+    cases ht : boydNode t with
+    | error e => simp [ht] at h
+    | ok a =>
+      cases hts : boydKids ts with
+      | error e => simp [ht, hts] at h
+      | ok b =>
+        simp only [ht, hts, Except.ok.injEq] at h
+        subst h
+        simp only [noEmptyL, Bool.and_eq_true] at hne
+        rw [List.flatMap_cons, List.nodup_append] at hn
+        have h1 := boydNode_good t a ht hne.1 hn.1
+        have h2 := boydKids_good ts b hts hne.2 hn.2.1
+        intro x hx
+        rcases List.mem_append.1 hx with hx | hx
+        · exact h1 x hx
+        · exact h2 x hx
+end
+
+/-! ### raising keeps every yield -/
+
+theorem yield_raiseKids (f g : Fields) (ks : List Tree) :
+    yield (node f (raiseKids ks)) = yield (node g ks) := by
+  simp only [yield, terminals, leaves, raiseKids_leaves]
+
+mutual
+theorem raiseNode_cont : (t : Tree) → continuous t = true → ∀ x ∈ raiseNode t, continuous x = true
+  | .leaf n f, _, x, hx => by
+    simp only [raiseNode, List.mem_singleton] at hx
+    subst hx; exact continuous_leaf n f
+  | .node f ks, h, x, hx => by
+    have hc := (continuous_node f ks).1 h
+    simp only [raiseNode] at hx
+    split at hx
+    · exact raiseKids_cont ks hc.2 x hx
+    · rw [List.mem_singleton] at hx
+      subst hx
+      refine (continuous_node _ _).2 ⟨?_, raiseKids_cont ks hc.2⟩
+      rw [yield_raiseKids f f]; exact hc.1
+theorem raiseKids_cont : (ks : List Tree) → (∀ k ∈ ks, continuous k = true) →
+    ∀ x ∈ raiseKids ks, continuous x = true
+  | [], _, x, hx => by simp [raiseKids] at hx
+  | t :: ts, h, x, hx => by
+    simp only [raiseKids, List.mem_append] at hx
+    rcases hx with hx | hx
+    · exact raiseNode_cont t (h t List.mem_cons_self) x hx
+    · exact raiseKids_cont ts (fun k hk => h k (List.mem_cons_of_mem _ hk)) x hx
+end
+
+theorem raising_cont (t : Tree) (h : continuous t = true) : continuous (raising t) = true := by
+  cases t with
+  | leaf n f => exact h
+  | node f ks =>
+    have hc := (continuous_node f ks).1 h
+    simp only [raising]
+    refine (continuous_node _ _).2 ⟨?_, raiseKids_cont ks hc.2⟩
+    rw [yield_raiseKids f f]; exact hc.1
+
+/-! ### a continuous tree is only re-flagged -/
+
+theorem stripTL_eq : ∀ ks : List Tree, stripTL ks = ks.map stripT
+  | [] => rfl
+  | t :: ts => by simp [stripTL, stripTL_eq ts]
+
+mutual
+theorem leaves_stripT : (t : Tree) → (stripT t).leaves.map num = t.leaves.map num
+  | .leaf n f => by simp [stripT, leaves, num]
+  | .node f ks => by simp only [stripT, leaves]; exact leavesL_stripT ks
+theorem leavesL_stripT : (ks : List Tree) → (leavesL (stripTL ks)).map num = (leavesL ks).map num
+  | [] => by simp [stripTL, leavesL]
+  | t :: ts => by
+    simp only [stripTL, leavesL, List.map_append, leaves_stripT t, leavesL_stripT ts]
+end
+
+theorem flatMap_leafNums_eq_of_strip {ks ks' : List Tree} (h : stripTL ks' = stripTL ks) :
+    ks'.flatMap leafNums = ks.flatMap leafNums := by
+  have h1 := leavesL_stripT ks'
+  rw [h, leavesL_stripT ks, leavesL_eq, leavesL_eq, List.map_flatMap, List.map_flatMap] at h1
+  exact h1.symm
+
+theorem boydStep_single (f : Fields) (ks' r : List Tree) (h : boydStep f ks' = .ok r)
+    (hgood : ∀ x ∈ ks', continuous x = true ∧ noEmpty x = true)
+    (hn : (ks'.flatMap leafNums).Nodup)
+    (hgc : gapCount (sortBy id (ks'.flatMap leafNums)) = 0) :
+    r = [node { f with split := some false, headBlock := some true } ks'] := by
+  have hI : ∀ x ∈ ks', Ival x := fun x hx =>
+    ival_of x (continuous_root x (hgood x hx).1) (leafNums_ne_nil x (hgood x hx).2)
+      (nodup_of_mem_flatMap hn hx)
+  have ns := nodeStep ks' hI hn
+  have hlen : (groupAdjacent (sortBy leftmost ks')).length ≤ 1 := by
+    have := congrArg List.length ns.groups
+    rw [List.length_map] at this
+    rw [gapCount_eq_blocks] at hgc
+    omega
+  unfold boydStep at h
+  rw [if_pos hlen] at h
+  exact (Except.ok.inj h).symm
+
+mutual
+theorem boydNode_fix : (t : Tree) → (r : List Tree) → boydNode t = .ok r →
+    continuous t = true → noEmpty t = true → t.leafNums.Nodup →
+    ∃ t', r = [t'] ∧ stripT t' = stripT t ∧ raiseNode t' = [t'] ∧ raising t' = t'
+  | .leaf n f, r, h, _, _, _ => by
+    simp only [boydNode, Except.ok.injEq] at h
+    subst h
+    exact ⟨_, rfl, by simp [stripT], by simp [raiseNode], by simp [raising]⟩
+  | .node f ks, r, h, hc, hne, hn => by
+    rw [boydNode_node] at h
+    cases hk : boydKids ks with
+    | error e => simp [hk] at h
+    | ok ks' =>
+      simp only [hk] at h
+      simp only [noEmpty, Bool.and_eq_true, Bool.not_eq_true', List.isEmpty_eq_false_iff] at hne
+      have hc' := (continuous_node f ks).1 hc
+      rw [yield_node] at hc'
+      rw [leafNums_node] at hn
+      have hgood := boydKids_good ks ks' hk hne.2 hn
+      obtain ⟨hn', hne'⟩ := kids_ready ks ks' hk hne.2 hne.1 hn
+      obtain ⟨hs, hr⟩ := boydKids_fix ks ks' hk hc'.2 hne.2 hn
+      have hgc : gapCount (sortBy id (ks'.flatMap leafNums)) = 0 := by
+        rw [flatMap_leafNums_eq_of_strip hs]; exact hc'.1
+      have := boydStep_single f ks' r h hgood hn' hgc
+      subst this
+      refine ⟨_, rfl, ?_, ?_, ?_⟩
+      · simp only [stripT, hs]
+      · simp [raiseNode, removable, hr]
+      · simp only [raising, hr]
+theorem boydKids_fix : (ks : List Tree) → (ks' : List Tree) → boydKids ks = .ok ks' →
+    (∀ k ∈ ks, continuous k = true) → noEmptyL ks = true → (ks.flatMap leafNums).Nodup →
+    stripTL ks' = stripTL ks ∧ raiseKids ks' = ks'
+  | [], ks', h, _, _, _ => by
+    simp only [boydKids, Except.ok.injEq] at h
+    subst h
+    simp [stripTL, raiseKids]
+  | t :: ts, ks', h, hc, hne, hn => by
+    simp only [boydKids] at h
+    cases ht : boydNode t with
+    | error e => simp [ht] at h
+    | ok a =>
+      cases hts : boydKids ts with
+      | error e => simp [ht, hts] at h
+      | ok b =>
+        simp only [ht, hts, Except.ok.injEq] at h
+        subst h
+        simp only [noEmptyL, Bool.and_eq_true] at hne
+        rw [List.flatMap_cons, List.nodup_append] at hn
+        obtain ⟨t', rfl, h1, h2, _⟩ := boydNode_fix t a ht (hc t List.mem_cons_self) hne.1 hn.1
+        obtain ⟨h3, h4⟩ := boydKids_fix ts b hts (fun k hk => hc k (List.mem_cons_of_mem _ hk))
+          hne.2 hn.2.1
+        refine ⟨?_, ?_⟩
+        · simp only [List.singleton_append, stripTL, h1, h3]
+        · simp only [List.singleton_append, raiseKids, h2, h4]
+end
+
 end TT.Lemmas.Boyd
